@@ -35,6 +35,37 @@ func avoidFor(prop string) func(hist.Step, *hist.MRunner) string {
 				}
 			}
 		}
+		// Symbolic links: STFS stores a link as a row (name=target, linkname=link path).
+		// Generated links have an existing target and a free link path, and a link path is
+		// afterwards only stat-ed, listed, renamed or removed (DESIGN §6).
+		if s.Op == "symlink" {
+			tgt, lnk := mr.M.Get(s.Path), mr.M.Get(s.Path2)
+			par := mr.M.Get(parentOfPath(s.Path2))
+			if tgt == nil || tgt.Kind == "link" || lnk != nil || par == nil || par.Kind != "dir" || hist_clean(s.Path) == hist_clean(s.Path2) {
+				return "interp:symlink-shape"
+			}
+			if guard("F-32") && parentOfPath(s.Path2) != "/" {
+				return "F-32"
+			}
+		} else {
+			for _, p := range append([]string{s.Path, s.Path2}, memberPaths(s)...) {
+				if p == "" {
+					continue
+				}
+				// the path or one of its ancestors is a link
+				for c := hist_clean(p); c != "/"; c = parentOfPath(c) {
+					if n := mr.M.Get(c); n != nil && n.Kind == "link" {
+						switch s.Op {
+						case "stat", "list", "remove", "arch_delete":
+							if c == hist_clean(p) {
+								continue
+							}
+						}
+						return "interp:symlink-as-operand"
+					}
+				}
+			}
+		}
 		// Archive-level calls are generated the way the CLI uses them on sane inputs: new
 		// names for Archive, existing entries of the same kind for Update, a free
 		// destination for Move, no name twice in one batch.
@@ -43,6 +74,9 @@ func avoidFor(prop string) func(hist.Step, *hist.MRunner) string {
 			seen := map[string]bool{}
 			for _, mb := range s.Members {
 				c := hist_clean(mb.Path)
+				if mr.HasOpenUnder(c) {
+					return "interp:two-handles-one-file"
+				}
 				if seen[c] {
 					return "interp:archive-level-duplicate-in-batch"
 				}
@@ -53,6 +87,9 @@ func avoidFor(prop string) func(hist.Step, *hist.MRunner) string {
 				}
 				if s.Op == "arch_update" && n != nil && n.Kind != mb.Kind {
 					return "interp:archive-level-update-changes-kind"
+				}
+				if s.Op == "arch_update" && !s.Replace && mb.Kind == "file" && guard("F-31") {
+					return "F-31"
 				}
 				if s.Op == "arch_update" && n == nil && !guard("F-27") {
 					continue
@@ -110,3 +147,11 @@ func knownOutcome(x *hctx, s hist.Step, res hist.Res) string {
 }
 
 func parentOfPath(p string) string { return path.Dir(hist_clean(p)) }
+
+func memberPaths(s hist.Step) []string {
+	var out []string
+	for _, m := range s.Members {
+		out = append(out, m.Path)
+	}
+	return out
+}
